@@ -35,6 +35,11 @@ func WrapStorageWithEncryption(storage common.TokenStorage, encryptor TokenEncry
 
 // Save encrypt and save data with defined id and context
 func (s *secureWrapper) Save(id []byte, context common.TokenContext, data []byte) error {
+	if len(data) == 0 {
+		// The token of an empty value is empty: there is nothing to protect and the encryptor refuses
+		// empty input, so keep the record empty instead of failing consistent tokenization of "".
+		return s.storage.Save(id, context, data)
+	}
 	encrypted, err := s.encryptor.Encrypt(data, context)
 	if err != nil {
 		return err
@@ -47,6 +52,10 @@ func (s *secureWrapper) Get(id []byte, context common.TokenContext) ([]byte, err
 	val, err := s.storage.Get(id, context)
 	if err != nil {
 		return nil, err
+	}
+	if len(val) == 0 {
+		// saved unencrypted by Save: an empty record
+		return val, nil
 	}
 	return s.encryptor.Decrypt(val, context)
 }
